@@ -445,10 +445,10 @@ MUTANTS = [
       "    keep = set(named)\n    for _ in range(3):\n        keep |= {p for n in keep for p in graph.directed.predecessors(n)}\n", ["C04", "C15"],
       "ancestral set truncated at depth 3: needs a descendant chain of four steps below a collider, or a fork four steps above both endpoints (>= 7 nodes)", run=["C04", "C15"]),
     M("u03", "sepG", CI, "        clique = district | ancestral_graph.get_markov_pillow(district)\n",
-      "        clique = district | ancestral_graph.get_markov_pillow(district - conditions)\n", ["C04"],
+      "        clique = district | ancestral_graph.get_markov_pillow(district - conditions)\n", ["C04", "C15"],
       "'conditioned members are deleted anyway': only the parents of the UNCONDITIONED members of a district join its clique, so private parents of different conditioned "
-      "members are not married (a -> m <-> n <- b given {m, n}; a variant of seeded/C04c that also hits partly conditioned districts). C15: a pair is mis-judged only with "
-      "conditioned district members, never with the empty set, and the pairs it affects are connected given the empty set as well in most graphs", run=["C04", "C15"]),
+      "members are not married (a -> m <-> n <- b given {m, n}; a variant of seeded/C04c that also hits partly conditioned districts). C15: unlike C04c a PARTLY conditioned "
+      "district is affected too, so pairs that no set separates get a judgement with a conditioned district member in it", run=["C04", "C15"]),
     M("u04", "sepG", CI, "        stop = None if max_conditions is None else max_conditions + 1\n",
       "        stop = 5 if max_conditions is None else min(max_conditions + 1, 5)\n", ["C15"],
       "size cap: conditioning sets of five or more nodes are never tried (pairs whose minimum separator has size >= 5: five or six parallel routes)", run=["C15"]),
@@ -471,6 +471,44 @@ MUTANTS = [
       "    d = middle in conditions.intersection(sigma[left])\n", ["C20"],
       "dropped operand in the fork: a conditioned fork node in the component of its LEFT child only is open, i.e. open in one reading direction (asymmetric): a conditioned "
       "cycle node with one child on the cycle and one child outside its component, non-adjacent endpoints", run=["C20"]),
+    # ---------- C12 (print / parse round trip): the parser's name table, operators used to build, long comma lists
+    # ---- the parser's name table (G12.2)
+    M("q01", "sepG", PARSER, "        LOCALS[name_underscored] = Variable(name_underscored)\n",
+      "        LOCALS[name_underscored] = Variable(name if name_underscored == \"K_7\" else name_underscored)\n", ["C12"],
+      "ONE name of the parser's table is bound to the wrong variable: `K_7` reads as Variable('K7'). Never drawn by the old COMMON / EXOTIC lists", run=["C12"]),
+    M("q02", "sepG", PARSER, "    if letter in {\"P\", \"Q\"}:\n", "    if letter in {\"P\", \"Q\", \"V\"}:\n", ["C12"],
+      "one LETTER is missing from the parser's table: every printed text with V, V0..V9, V_0..V_9 raises NameError (V was one of the 10 letters never drawn)", run=["C12"]),
+    M("q03", "sepG", PARSER, "        name = f\"{letter}{index}\"\n", "        name = f\"{letter}{index}\" if (letter, index) != (\"Pi\", 3) else \"Pi_3\"\n", ["C12"],
+      "the slot of `Pi3` is filled with Variable('Pi_3') (and `Pi3` is missing): Pi<d> forms were only ever used as populations π1 / π2 / Pi1", run=["C12"]),
+    # ---- operators used to BUILD an expression (G12.1)
+    M("q04", "sepG", DSL, "        return self._new(self.distribution.intervene(variables))\n",
+      "        return self._new(self.distribution.uncondition().intervene(variables))\n", ["C12"],
+      "Probability.intervene (`P(Y | Z) @ X`) loses the conditional bar: the parents are appended to the children, UNSORTED, so the built object is not in the "
+      "builders' normal form; it prints `P[X](Y, Z)` / `P[X](Z, Y)` and the text parses to the sorted object: object-equality clause fails for `P(Z | Y) @ X`", run=["C12"]),
+    M("q05", "sepG", DSL, "        return self._new(self.distribution.intervene(variables))\n",
+      "        return Probability(self.distribution.intervene(variables))\n", OUT,
+      "Probability.intervene drops the population: `PP[π1](Y) @ X` builds P[X](Y). The object is a well-formed Probability and round-trips; only the "
+      "correspondence stream `built` (model of `@` on a PopulationProbability keeps the population) notices", run=["C12"]),
+    M("q06", "sepG", DSL, "    def __neg__(self) -> CounterfactualVariable:\n        return self._with_star(False)\n",
+      "    def __neg__(self) -> CounterfactualVariable:\n        return Variable.__neg__(self)\n", OUT,
+      "CounterfactualVariable.__neg__ drops the intervention subscripts: `-(Y @ X)` builds -Y. Well-formed object, round-trips; correspondence only", run=["C12"]),
+    M("q07", "sepG", DSL, "                parents=parents.children,  # don't think about this too hard\n",
+      "                parents=parents.children[:1],  # don't think about this too hard\n", OUT,
+      "Variable.given with a Distribution on the right (`A | B & C`, the documented idiom) keeps only the first parent. Well-formed object; correspondence only", run=["C12"]),
+    M("q08", "sepG", DSL, "        return self._intervention(not self.star)\n", "        return self._intervention(True)\n", OUT,
+      "Variable.invert on an already marked variable: `~+Y` stays +Y (unmarked and -Y unchanged). Well-formed object; correspondence only", run=["C12"]),
+    M("q09", "sepG", DSL, "            children=_upgrade_ordering((*self.children, *_upgrade_variables(children))),\n            parents=self.parents,\n",
+      "            children=_upgrade_ordering((*self.children, *_upgrade_variables(children))),\n", OUT,
+      "Distribution.joint (`(A | B) & C`, `&` applied to a conditional distribution) drops the parents. Well-formed object; correspondence only", run=["C12"]),
+    # ---- size caps (G12.3)
+    M("q10", "sepG", DSL, "        ranges = _list_to_y0(self._get_sorted_ranges())\n", "        ranges = _list_to_y0(self._get_sorted_ranges()[:4])\n", ["C12"],
+      "Sum.to_y0 prints at most four ranges: Sum[A, B, C, D, E](..) loses E (the old generator stopped at three ranges)", run=["C12"]),
+    M("q11", "sepG", DSL, "            for intervention in _sort_interventions(interventions)\n        )\n        return f\"P[{intervention_str}]",
+      "            for intervention in _sort_interventions(interventions)[:4]\n        )\n        return f\"P[{intervention_str}]", ["C12"],
+      "Probability.to_y0 prints at most four subscripts in the level-2 form P[..](..): a fifth common intervention disappears", run=["C12"]),
+    M("q12", "sepG", DSL, "    return \", \".join(element.to_y0() for element in elements)\n",
+      "    return \", \".join(element.to_y0() for element in tuple(elements)[:5])\n", ["C12"],
+      "_list_to_y0 prints at most five elements: the sixth child (or range / parent) of a long comma list disappears (the old generator: <= 3 children, <= 2 parents)", run=["C12"]),
 ]
 
 
